@@ -375,7 +375,7 @@ def ok_exit_blocks(P, fn):
 # guards
 
 _CMP_NAMES = {"eq", "ne", "lt", "le", "gt", "ge", "cmp", "is_zero", "equal", "is_native_token",
-              "contains", "is_some", "is_none", "is_empty"}
+              "contains", "is_some", "is_none", "is_empty", "any", "all"}
 
 
 def cmp_kind(callee):
@@ -1058,3 +1058,59 @@ def inline_helpers(P, v, depth=0):
     if k == "upd":
         return ("upd", inline_helpers(P, v[1], depth), v[2], inline_helpers(P, v[3], depth))
     return v
+
+
+# ---------------------------------------------------------------------------------------
+# vectors built by pushes
+
+def in_cycle(body, b):
+    return any(b in body.reachable_from(s) for s in body.succs[b])
+
+
+def vec_build(P, fn, v):
+    """Decompose a Vec value that is built by mutation: returns (base value, [(op name, call value, in_loop)]) oldest first,
+    or None when the value is not a plain chain of &mut-consuming calls."""
+    ops = []
+    guard = 0
+    while guard < 60:
+        guard += 1
+        k = v[0]
+        if k == "phi":
+            muts = [x for x in v[1] if x[0] == "mut"]
+            rest = [x for x in v[1] if x[0] not in ("mut", "cycle")]
+            if len(muts) == 1 and len(rest) <= 1:
+                v = muts[0]
+                continue
+            if not muts and len(rest) == 1:
+                v = rest[0]
+                continue
+            return None
+        if k == "mut":
+            f = P.fn(v[2])
+            if f is None:
+                return None
+            cons = borrow_consumer(P, f, v[3], v[4])
+            if cons is None or cons[1] is None:
+                return None
+            cv = P.val_call(f, f.body, cons[0])
+            # through deref_mut
+            if last_seg(cons[1]) in ("deref_mut", "as_mut_slice", "as_mut"):
+                return None
+            ops.append((last_seg(cons[1]), cv, in_cycle(f.body, cons[0])))
+            v = v[1]
+            continue
+        if k == "call" and isinstance(v[3], str) and (is_try_branch(v[3]) or transparent_arg(v[3]) == 0) and last_seg(v[3]) not in ("new", "with_capacity", "collect", "to_vec"):
+            v = v[4][0]
+            continue
+        if k == "proj" and v[2][0] in ("v",) or (k == "proj" and v[2] == ("f", 0)):
+            v = v[1]
+            continue
+        break
+    ops.reverse()
+    return v, ops
+
+
+def is_empty_vec_base(v):
+    if v[0] == "agg" and v[2] == "vec":
+        return len(v[3]) == 0
+    return v[0] == "call" and isinstance(v[3], str) and re.search(r"vec::Vec::(new|with_capacity)$", generic_path(v[3])) is not None
